@@ -81,7 +81,28 @@ func kinds(ps []tds.Package) string {
 	return s
 }
 
-func runCase(c c03Case) (f *vh.Failure) {
+// patience is the wall-clock bound of a round's consumer. A verdict reached after a bound has
+// been hit (the case took as long as the bound) is only reported if the case fails again with
+// ten times the patience: a machine busy with other work (load 90 during a thorough run beside
+// other jobs) can hold a goroutine back for seconds, a library that blocks does so every time.
+var patience = 2 * time.Second
+
+func runCase(c c03Case) *vh.Failure {
+	t0 := time.Now()
+	f := runCaseOnce(c)
+	if f != nil && time.Since(t0) >= patience-100*time.Millisecond {
+		vh.Label("timing-verdict-repeated")
+		patience *= 10
+		f = runCaseOnce(c)
+		patience /= 10
+		if f == nil {
+			vh.Label("timing-verdict-not-confirmed")
+		}
+	}
+	return f
+}
+
+func runCaseOnce(c c03Case) (f *vh.Failure) {
 	defer func() {
 		if r := recover(); r != nil {
 			vh.CheckHarnessPanic(r)
@@ -178,7 +199,7 @@ func runCase(c c03Case) (f *vh.Failure) {
 			}
 			want = append(want, i)
 		}
-		wctx, wcancel := context.WithTimeout(bg, 2*time.Second)
+		wctx, wcancel := context.WithTimeout(bg, patience)
 		aborted := false
 		gotFinal := false
 		progress := func() {
@@ -344,7 +365,7 @@ func runCase(c c03Case) (f *vh.Failure) {
 					wcancel()
 					return f
 				}
-			case <-time.After(5 * time.Second):
+			case <-time.After(patience + 3*time.Second):
 				wcancel()
 				return vh.Failf("C03/consumer-blocked", "%s: the consumer did not finish although the whole response has arrived", where)
 			}
